@@ -64,6 +64,80 @@ TBA2 = ("glob", f"{SRP}.to_byte_array")
 KLEN = ("const", KEY_LENGTH)
 
 
+class _NoFold(Exception):
+    pass
+
+
+def _fold(e: ast.AST, env: dict, tba):
+    """Value of a constant expression over a whitelist: names in env, int/bytes/str literals, hashlib.sha512(x).digest(),
+    to_byte_array(x), bytes(..), len, zip, range, ^ + - * //, indexing, tuple-unpacking generator / list comprehensions."""
+    import hashlib as _hl
+
+    if isinstance(e, ast.Constant) and isinstance(e.value, (int, bytes, str)) and not isinstance(e.value, bool):
+        return e.value
+    if isinstance(e, ast.Name):
+        if e.id in env:
+            return env[e.id]
+        raise _NoFold(e.id)
+    if isinstance(e, ast.BinOp):
+        a, b = _fold(e.left, env, tba), _fold(e.right, env, tba)
+        ops = {ast.BitXor: lambda x, y: x ^ y, ast.Add: lambda x, y: x + y, ast.Sub: lambda x, y: x - y, ast.Mult: lambda x, y: x * y, ast.FloorDiv: lambda x, y: x // y}
+        if type(e.op) in ops:
+            try:
+                return ops[type(e.op)](a, b)
+            except Exception as x:  # noqa: BLE001
+                raise _NoFold(str(x))
+        raise _NoFold("op")
+    if isinstance(e, ast.Subscript) and not isinstance(e.slice, ast.Slice):
+        try:
+            return _fold(e.value, env, tba)[_fold(e.slice, env, tba)]
+        except _NoFold:
+            raise
+        except Exception as x:  # noqa: BLE001
+            raise _NoFold(str(x))
+    if isinstance(e, (ast.GeneratorExp, ast.ListComp)) and len(e.generators) == 1 and not e.generators[0].ifs and not e.generators[0].is_async:
+        g = e.generators[0]
+        it = _fold(g.iter, env, tba)
+        out = []
+        for item in it:
+            env2 = dict(env)
+            if isinstance(g.target, ast.Name):
+                env2[g.target.id] = item
+            elif isinstance(g.target, ast.Tuple) and all(isinstance(x, ast.Name) for x in g.target.elts) and len(g.target.elts) == len(item):
+                for x, v in zip(g.target.elts, item):
+                    env2[x.id] = v
+            else:
+                raise _NoFold("target")
+            out.append(_fold(e.elt, env2, tba))
+        return out
+    if isinstance(e, ast.Call) and not e.keywords:
+        f = e.func
+        args = [_fold(a, env, tba) for a in e.args]
+        name = f.id if isinstance(f, ast.Name) else None
+        try:
+            if name == "bytes" and len(args) == 1:
+                return bytes(args[0])
+            if name == "len" and len(args) == 1:
+                return len(args[0])
+            if name == "zip":
+                return list(zip(*args))
+            if name == "range":
+                return list(range(*args))
+            if name == "to_byte_array" and len(args) == 1 and isinstance(args[0], int):
+                return tba(args[0])
+            if isinstance(f, ast.Attribute) and f.attr == "digest" and not args and isinstance(f.value, ast.Call) and not f.value.keywords:
+                h = f.value.func
+                if (isinstance(h, ast.Attribute) and h.attr == "sha512" and isinstance(h.value, ast.Name) and h.value.id == "hashlib") or (isinstance(h, ast.Name) and h.id == "sha512"):
+                    hargs = [_fold(a, env, tba) for a in f.value.args]
+                    if len(hargs) == 1 and isinstance(hargs[0], (bytes, bytearray)):
+                        return _hl.sha512(hargs[0]).digest()
+        except _NoFold:
+            raise
+        except Exception as x:  # noqa: BLE001
+            raise _NoFold(str(x))
+    raise _NoFold(type(e).__name__)
+
+
 def run(ctx: Context) -> None:
     ck = ctx.ck
     if ck.rule("C02.K1", "group constants against the computed oracle"):
@@ -101,8 +175,31 @@ def _k1(ctx: Context) -> None:
         "HASH_GEN": "hashlib.sha512(to_byte_array(GENERATOR_VALUE)).digest()",
         "H_GROUP": "bytes((HASH_MOD[i] ^ HASH_GEN[i] for i in range(len(HASH_MOD))))",
     }
+    # the three hash constants are decided by VALUE: their defining expressions are folded with a small whitelisted
+    # constant evaluator (sha512, bytes, zip/range comprehensions, xor, indexing) and compared with the oracle's value, so
+    # any spelling of the same constant is accepted and any other constant is not
+    import hashlib as _hl
+
+    def _tba(n: int) -> bytes:
+        return n.to_bytes((n.bit_length() + 7) // 8, "big")
+
+    oracle = {"HASH_MOD": _hl.sha512(_tba(N)).digest(), "HASH_GEN": _hl.sha512(_tba(GENERATOR)).digest()}
+    oracle["H_GROUP"] = bytes(a ^ b for a, b in zip(oracle["HASH_MOD"], oracle["HASH_GEN"]))
+    env = {"MODULUS_VALUE": n_repo, "GENERATOR_VALUE": g_repo, "HK_KEY_LENGTH": l_repo}
+    folded = {}
+    for name in ("HASH_MOD", "HASH_GEN", "H_GROUP"):
+        vals = m.assigns.get(name, [])
+        if len(vals) == 1:
+            try:
+                folded[name] = _fold(vals[0], dict(env, **folded), _tba)
+            except _NoFold:
+                pass
     for name, src in want.items():
         vals = m.assigns.get(name, [])
+        if name in folded:
+            ck.check("C02.K1", folded[name] == oracle[name], f"{name} has the value of {src} (constant folded)", f"{SRPM}:{name}",
+                     f"{name} is defined as `{_u(vals[0])[:100]}`, whose value differs from {src} of the RFC group", loc)
+            continue
         ok = len(vals) == 1 and ast.dump(vals[0]) == ast.dump(ast.parse(src, mode="eval").body)
         alt = name == "H_GROUP" and len(vals) == 1 and ast.dump(vals[0]) == ast.dump(ast.parse("bytes((a ^ b for a, b in zip(HASH_MOD, HASH_GEN)))", mode="eval").body)
         if len(vals) == 1 and not (ok or alt):
@@ -247,6 +344,25 @@ def _t1(ctx: Context) -> None:
 
 
 # ---------------------------------------------------------------------- T2
+def _norm(t):
+    """One spelling for equal byte strings: X.to_bytes(384, 'big') is PAD384(to_byte_array(X)) for 0 <= X < 2^3072 (every
+    SRP group element); the class-qualified to_byte_array is the module function."""
+    if not isinstance(t, tuple):
+        return t
+    if t and t[0] == "const":
+        return t
+    t = tuple(_norm(x) for x in t)
+    if len(t) >= 4 and t[0] == "call" and isinstance(t[1], tuple) and t[1][:1] == ("attr",) and t[1][2] == "to_bytes":
+        args, kw = t[2], dict(t[3])
+        ln = args[0] if len(args) >= 1 else kw.get("length")
+        bo = args[1] if len(args) >= 2 else kw.get("byteorder")
+        if ln == KLEN and bo == ("const", "big"):
+            return call(PAD, call(TBA, t[1][1]), KLEN)
+    if len(t) >= 4 and t[0] == "call" and t[1] == TBA2:
+        return ("call", TBA) + t[2:]
+    return t
+
+
 def _single_return(ctx, T, q):
     f = ctx.func(q)
     cfg = ctx.cfg(q)
@@ -262,8 +378,8 @@ def _t2(ctx: Context) -> None:
         f, cfg, rets = _single_return(ctx, T, q)
         if pick is not None:
             rets = [r for r in rets if pick(strip_sites(T.of(cfg, r, r.exprs[0])))]
-        got = [strip_sites(T.of(cfg, r, r.exprs[0])) for r in rets]
-        ok = len(got) == 1 and got[0] in (want if isinstance(want, list) else [want])
+        got = [_norm(strip_sites(T.of(cfg, r, r.exprs[0]))) for r in rets]
+        ok = len(got) == 1 and got[0] in [_norm(w) for w in (want if isinstance(want, list) else [want])]
         ck.check("C02.T2", ok, what, f"{ctx.fkey(f)}:formula", f"{f.qualname.split('.')[-2]}.{f.name} computes {[show(g, 300) for g in got]}; specification: {what}", f.loc())
 
     user_pass = ("call", ("attr", ("fstr", (("fmt", S("username"), -1, None), ("const", ":"), ("fmt", S("password"), -1, None))), "encode"), (), ())
@@ -280,7 +396,11 @@ def _t2(ctx: Context) -> None:
     ws = [(n, strip_sites(T.of(cfg, n, n.ast.value))) for n in cfg.nodes if n.kind == "stmt" and isinstance(n.ast, ast.Assign) and _u(n.ast.targets[0]) == "self._session_key"]
     rets = [strip_sites(T.of(cfg, n, n.exprs[0])) for n in cfg.nodes if n.kind == "return" and n.exprs]
     k_t = meth("digest", meth("get_shared_secret_bytes"))
-    ok = (ws and all(w[1] == k_t for w in ws) and all(r in (S("_session_key"), k_t) for r in rets)) or (not ws and rets == [k_t])
+    def alts(t):
+        return [a for x in t[1] for a in alts(x)] if t[0] == "phi" else [t]
+
+    # the cached value or the freshly computed one, through any arrangement of temporaries / branches
+    ok = (ws and all(a == k_t for w in ws for a in alts(w[1])) and all(a in (S("_session_key"), k_t) for r in rets for a in alts(r))) or (not ws and rets == [k_t])
     ck.check("C02.T2", bool(ok), "K = H(PAD384(S))", f"{ctx.fkey(f)}:formula", f"get_session_key_bytes computes {[show(w[1], 120) for w in ws] or [show(r, 120) for r in rets]}", f.loc())
     other = [g.qualname for cn in (SRP, CLI) for g in ctx.prog.cls(cn).methods.values() if g.qualname != f.qualname and g.name != "__init__"
              for x in walk_own(g.node) if isinstance(x, ast.Assign) and _u(x.targets[0]) == "self._session_key"]
@@ -302,7 +422,7 @@ def _t2(ctx: Context) -> None:
     asg = {}
     for n in icfg.nodes:
         if n.kind == "stmt" and isinstance(n.ast, ast.Assign) and isinstance(n.ast.targets[0], ast.Attribute) and _u(n.ast.targets[0].value) == "self":
-            asg[n.ast.targets[0].attr] = strip_sites(T.of(icfg, n, n.ast.value))
+            asg[n.ast.targets[0].attr] = _norm(strip_sites(T.of(icfg, n, n.ast.value)))
     rows = {
         "a": meth("generate_private_key"),
         "A": call(("glob", "pow"), S("g"), S("a"), S("n")),
